@@ -17,6 +17,11 @@
 
      acquire   op:acq [local] -> pts.lookup (read lock: entry of the current thread? clone it : pts.create [local]:
                create the instance with no lock held) -> pts.insert (write lock: insert, or use the occupant)
+     acquire with a RE-ENTRANT FACTORY ("acqr"): creating the instance runs user code (the factory captured by
+               linked::new!), which may itself call acquire() on the same wrapper on the same thread and KEEP the
+               reference: op:acq -> pts.lookup (miss) -> pts.create [local]: factory -> nested pts.lookup (miss) ->
+               pts.create [local] -> nested pts.insert (inserts, returns the peer reference) -> back in the outer call
+               pts.insert finds the entry OCCUPIED: the outer instance is discarded and the occupant returned.
      clone     op:cln [local] -> pts.clone (Arc::clone)
      send      op:snd (move a held reference into another thread's mailbox)        receive   op:rcv
      drop, Variant = "orig"  (the code before the fix for finding S6b)
@@ -27,7 +32,7 @@
                reference's ORIGIN thread is the only owner of its instance, remove it; the instance is destroyed)  *)
 EXTENDS LinkedAbs
 
-CONSTANTS NT, MaxOps, MaxRefs, AllowMove, Variant, Hist
+CONSTANTS NT, MaxOps, MaxRefs, AllowMove, Variant, Hist, Reenter
 
 Threads == 0 .. NT - 1
 Fam == 7
@@ -47,6 +52,8 @@ Init ==
              cur |-> [t \in Threads |-> NoRef],              \* reference the current operation works on
              arg |-> [t \in Threads |-> 0],                  \* send target / origin thread of the dropped reference
              hold |-> [t \in Threads |-> 0],                 \* instance whose Arc the thread holds outside held/mail
+             hold2 |-> [t \in Threads |-> 0],                \* the same for the nested acquire of a re-entrant factory
+             re |-> [t \in Threads |-> FALSE],               \* the acquire in progress has a re-entrant factory
              nref |-> 0, ninst |-> 0, nops |-> [t \in Threads |-> 0],
              j |-> JStep(JInit, [ev |-> "wrapper", fam |-> Fam]),
              log |-> <<>>,                                   \* yield points passed by the current action
@@ -60,7 +67,8 @@ SumOver(S, f, T) == IF T = {} THEN 0 ELSE LET t == CHOOSE x \in T : TRUE IN
                     CountIn(f[t], S) + SumOver(S, f, T \ {t})
 \* Arc strong count of instance i
 Count(S, i) == SumOver(i, S.held, Threads) + SumOver(i, S.mail, Threads)
-               + Cardinality({ t \in Threads : S.hold[t] = i }) + Cardinality({ t \in Threads : S.map[t] = i })
+               + Cardinality({ t \in Threads : S.hold[t] = i }) + Cardinality({ t \in Threads : S.hold2[t] = i })
+               + Cardinality({ t \in Threads : S.map[t] = i })
 
 Ev(S, e) == [S EXCEPT !.j = JStep(@, e)]
 Lg(S, p) == [S EXCEPT !.log = Append(@, p)]
@@ -79,7 +87,9 @@ After(S, t) ==
     LET budget == S.nops[t] < MaxOps
         more == S.nref < MaxRefs
         n == Len(S.held[t]) IN
-    { Lg(Op([S EXCEPT !.pc[t] = "pts.lookup"], t, <<"acq">>), "op:acq") : x \in IF budget /\ more THEN {1} ELSE {} }
+    { Lg(Op([S EXCEPT !.pc[t] = "pts.lookup", !.re[t] = FALSE], t, <<"acq">>), "op:acq") : x \in IF budget /\ more THEN {1} ELSE {} }
+    \cup { Lg(Op([S EXCEPT !.pc[t] = "pts.lookup", !.re[t] = TRUE], t, <<"acqr">>), "op:acq") :
+           x \in IF Reenter /\ budget /\ S.nref + 2 <= MaxRefs THEN {1} ELSE {} }
     \cup { Lg(Op([S EXCEPT !.pc[t] = "pts.clone", !.cur[t] = S.held[t][i]], t, <<"cln", i - 1>>), "op:cln") :
            i \in IF budget /\ more THEN 1..n ELSE {} }
     \cup { Op([S EXCEPT !.pc[t] = "op:snd", !.cur[t] = S.held[t][i], !.arg[t] = to], t, <<"snd", i - 1, to>>) :
@@ -111,7 +121,8 @@ Lookup(t) ==
        IF S.map[t] # 0
        THEN Finish(NewRef(S, t, S.map[t], [ev |-> "acquire", t |-> t, inst |-> S.map[t], born |-> S.insts[S.map[t]].born, fam |-> Fam]), t)
        ELSE LET i == S.ninst + 1 IN
-            Install(Ev(Lg([S EXCEPT !.ninst = i, !.insts = (i :> [born |-> t, alive |-> TRUE]) @@ @, !.hold[t] = i, !.pc[t] = "pts.insert"],
+            Install(Ev(Lg([S EXCEPT !.ninst = i, !.insts = (i :> [born |-> t, alive |-> TRUE]) @@ @, !.hold[t] = i,
+                                         !.pc[t] = IF S.re[t] THEN "ptsn.lookup" ELSE "pts.insert"],
                           "pts.create"),
                        [ev |-> "create", t |-> t, inst |-> i, fam |-> Fam]), t)
 
@@ -125,6 +136,31 @@ Insert(t) ==
        ELSE LET k == S.map[t] IN     \* occupied: use the occupant, the new instance is discarded
             Finish(Released(NewRef([S EXCEPT !.hold[t] = 0], t, k,
                                    [ev |-> "acquire", t |-> t, inst |-> k, born |-> S.insts[k].born, fam |-> Fam]), t, i), t)
+
+\* the factory of the instance being created re-enters acquire() on the same wrapper: nested lookup (a miss: only the
+\* thread itself ever fills its own entry) and creation of a second instance ...
+NLookup(t) ==
+    /\ st.pc[t] = "ptsn.lookup"
+    /\ LET S == S0(t, "pts.lookup")
+           i == S.ninst + 1 IN
+       IF S.map[t] # 0
+       THEN Install(NewRef([S EXCEPT !.pc[t] = "pts.insert"], t, S.map[t],
+                           [ev |-> "acquire", t |-> t, inst |-> S.map[t], born |-> S.insts[S.map[t]].born, fam |-> Fam]), t)
+       ELSE Install(Ev(Lg([S EXCEPT !.ninst = i, !.insts = (i :> [born |-> t, alive |-> TRUE]) @@ @, !.hold2[t] = i, !.pc[t] = "ptsn.insert"],
+                          "pts.create"),
+                       [ev |-> "create", t |-> t, inst |-> i, fam |-> Fam]), t)
+
+\* ... which is inserted and returned to the factory, which keeps the reference (the thread holds it from now on)
+NInsert(t) ==
+    /\ st.pc[t] = "ptsn.insert"
+    /\ LET S == S0(t, "pts.insert")
+           i == S.hold2[t] IN
+       IF S.map[t] = 0
+       THEN Install(NewRef([S EXCEPT !.map[t] = i, !.hold2[t] = 0, !.pc[t] = "pts.insert"], t, i,
+                           [ev |-> "acquire", t |-> t, inst |-> i, born |-> S.insts[i].born, fam |-> Fam]), t)
+       ELSE LET k == S.map[t] IN
+            Install(Released(NewRef([S EXCEPT !.hold2[t] = 0, !.pc[t] = "pts.insert"], t, k,
+                                    [ev |-> "acquire", t |-> t, inst |-> k, born |-> S.insts[k].born, fam |-> Fam]), t, i), t)
 
 Clone(t) ==
     /\ st.pc[t] = "pts.clone"
@@ -182,7 +218,7 @@ DropClear(t) ==
             THEN DropEnd(Released([S EXCEPT !.map[o] = 0], t, k), t)
             ELSE DropEnd(S, t)
 
-Step(t) == Begin(t) \/ Lookup(t) \/ Insert(t) \/ Clone(t) \/ Send(t) \/ Recv(t) \/ DropBegin(t) \/ DropCount(t) \/ DropClear(t)
+Step(t) == Begin(t) \/ Lookup(t) \/ NLookup(t) \/ NInsert(t) \/ Insert(t) \/ Clone(t) \/ Send(t) \/ Recv(t) \/ DropBegin(t) \/ DropCount(t) \/ DropClear(t)
 
 Done == \A t \in Threads : st.pc[t] = "done"
 NextNoStutter == \E t \in Threads : Step(t)
